@@ -52,3 +52,13 @@ def relevant(pc, query_terms):
                     want |= s
                     changed = True
     return [c for (c, _), ok in zip(items, chosen) if ok]
+
+
+def fold(t):
+    """constant folding only: terms with uninterpreted symbols are returned as they are (z3.simplify on large
+    bit-vector terms is far more expensive than the information it gives the executor)"""
+    if z3.is_true(t) or z3.is_false(t) or z3.is_bv_value(t) or z3.is_int_value(t) or z3.is_rational_value(t):
+        return t
+    if symbols(t):
+        return t
+    return z3.simplify(t)
